@@ -164,8 +164,8 @@ PROPS["C17"] = dict(
     assumptions=GEN_ASSUME,
 )
 PROPS["C20"] = dict(
-    stages=[egen(3, 90)],
-    rule="cases = generated packages processed in base and in source-map mode; oracle = outputs parse in both modes and are equal after dropping all comments (incl. /*line*/ directives) and normalising whitespace; no magic token left; the source-map output compiles; non-trivial = file with >=2 directives; distinct = hash(spec, mode). Modifier-mode differential: see DESIGN.md (stage pending)",
+    stages=[egen(3, 90), ebin(1, 20)],
+    rule="cases = generated packages processed in base and in source-map mode; oracle = outputs parse in both modes and are equal after dropping all comments (incl. /*line*/ directives) and normalising whitespace; no magic token left; the source-map output compiles; non-trivial = file with >=2 directives; distinct = hash(spec, mode). E-BIN differential stage: flows of the modifier-supported subset (Params, Results, Concurrency, plain Tasks in several spellings) are written twice (packages p and pm), processed with -genmode=base resp. -genmode=modifier, compiled into one binary and run under identical scenarios {ok, error, panic}: same nil-ness, same Results tags, error that is an injected fault, Results untouched on failure; the full flow oracle also runs on the modifier-mode code",
     assumptions=GEN_ASSUME,
 )
 
